@@ -445,6 +445,20 @@ def _shard_worker(args):
             [f.qualname for f in E.f.values()])
 
 
+def temperature_rules_for(ctx, prop, label):
+    """convert_temperature interpreted on behalf of another property: findings re-labelled <prop>.<label> (used by C05: the unit label
+    a conversion leaves behind is part of the identifier, so every spelling of the target must leave the canonical label)"""
+    r = _shard_worker((str(ctx.root), "quick", "temperature", None, True))
+    n, ob, di, fs = r[0], r[1], r[2], r[3]
+    ctx.obligations += ob
+    ctx.evaluations += ob
+    ctx.discharged += di
+    for (rule, where, key, message, detail) in fs:
+        ctx.add(Finding(f"{prop}.{label}", where, key, message, detail))
+    ctx._nontrivial.update(("c02",) + tuple(x) if isinstance(x, tuple) else ("c02", x) for x in r[4])
+    ctx.floor("convert_temperature cases interpreted", n, 10)
+
+
 def run(ctx: Ctx):
     thorough = ctx.tier == "thorough"
     load(ctx.root)      # anchors / parse errors surface here, in the parent
